@@ -218,17 +218,11 @@ Proof.
 Qed.
 
 (* ---------- load, deferred mode (inside a function or lambda body) ---------- *)
-Lemma kind_normal : forall s i, SInv s -> fst (get_scope (scopes s) i) = KNormal.
-Proof.
-  intros s i H. pose proof (sv_nocls s H i) as E. unfold scope_is_class in E.
-  destruct (fst (get_scope (scopes s) i)); congruence.
-Qed.
-
 Lemma clone_top_S : forall s stk, SInv s ->
-  clone_top s stk = (removelast stk ++ [next_id s], snd (new_scope s KNormal (scope_dict s (top stk)))).
+  clone_top s stk = (removelast stk ++ [next_id s], snd (new_scope s KClone (scope_dict s (top stk)))).
 Proof.
-  intros s stk H. unfold clone_top, scope_dict. pose proof (kind_normal s (top stk) H) as Ek.
-  destruct (get_scope (scopes s) (top stk)) as [c d]. cbn [fst snd] in *. subst c. reflexivity.
+  intros s stk H. unfold clone_top, scope_dict.
+  destruct (get_scope (scopes s) (top stk)) as [c d]. cbn [fst snd] in *. reflexivity.
 Qed.
 
 Lemma dict_has_rootclosed_copy : forall s i, SInv s ->
@@ -263,13 +257,13 @@ Proof.
     + intros l1 m Hr. destruct (B l1 m Hr); [left|right]; apply in_app_iff; auto.
   - rewrite clone_top_S by exact HI. cbv zeta.
     set (j := next_id s). set (d := scope_dict s (top (stack_of L))).
-    set (s2 := snd (new_scope s KNormal d)).
+    set (s2 := snd (new_scope s KClone d)).
     set (stk' := removelast (stack_of L) ++ [j]).
-    destruct (new_scope_fields s d) as (_ & Enx & Em & Ed & Efd & Eln & _). fold s2 in Enx, Em, Ed, Efd, Eln.
+    destruct (new_scope_fields_k s KClone d) as (_ & Enx & Em & Ed & Efd & Eln & _). fold s2 in Enx, Em, Ed, Efd, Eln.
     destruct (dict_has_rootclosed_copy s (top (stack_of L)) HI) as (P1 & P2 & P3). fold d in P1, P2, P3.
-    assert (HI2 : SInv s2) by (apply SInv_new; auto).
+    assert (HI2 : SInv s2) by (apply SInv_new_k; auto; discriminate).
     assert (Hsd : forall i, scope_dict s2 i = if Nat.eqb i j then d else scope_dict s i)
-      by (intro i; apply scope_dict_new; apply (sv_fresh s HI)).
+      by (intro i; apply scope_dict_new_k; apply (sv_fresh s HI)).
     assert (Hhas : forall i x, has s2 i x = if Nat.eqb i j then has s (l_b l) x else has s i x).
     { intros i x. unfold has. rewrite Hsd. destruct (Nat.eqb i j); auto. unfold d. unfold L. rewrite stack_top. reflexivity. }
     assert (Hstk : stk' = dstack L j).
